@@ -1,3 +1,4 @@
 pub mod cidv;
+pub mod cidx;
 pub mod verify;
 pub mod wf;
